@@ -31,6 +31,9 @@ def cases(rng, tier):
     ikm_lens = [0, 1, 31, 32, 33, 64, 128] if tier == "quick" else list(range(0, 129, 3))
     for n in ikm_lens:
         cs.append(Case("bls.KeyGen", [tb(rb(rng, n)), tb(rb(rng, rng.choice([0, 1, 32, 64])))]))
+    for ikm in (b"\x00", bytes(32), rb(rng, 31) + b"\x00", b"\x00" + rb(rng, 31), rb(rng, 30) + b"\x00\x00", b"\x00" * 33):
+        cs.append(Case("bls.KeyGen", [tb(ikm), tb(b"")]))
+        cs.append(Case("bls.KeyGen", [tb(ikm), tb(b"\x00\x30")]))
     return cs
 
 
@@ -85,6 +88,9 @@ def predicates(rng, tier, only=None):
                                                      rb(rng, rng.randrange(0, 301)), rng.choice([0, 1, 32, 33, 48, 8160, 8161, rng.randrange(8161)]))))
     for _ in range(n):
         ps.append(Pred("keygen-draft", keygen_pred, (rb(rng, rng.randrange(0, 129)), rb(rng, rng.randrange(0, 65)))))
+    for ikm in (b"\x00", bytes(32), rb(rng, 31) + b"\x00", b"\x00" + rb(rng, 31), rb(rng, 30) + b"\x00\x00"):
+        ps.append(Pred("keygen-draft", keygen_pred, (ikm, b"")))
+        ps.append(Pred("keygen-draft", keygen_pred, (ikm, b"\x00\x30\x00")))
     if only:
         ps = [p for p in ps if p.name == only]
     return ps
